@@ -180,7 +180,7 @@ if mode == "stress":
 else:
     tab = np.asarray(mat.Compute_d2Wde(state(Ckm)), dtype=float)[0, 0]; ref = fd(S, Ckm).T
     print("Compute_d2Wde =\n", tab); print("central diff of Compute_dWde =\n", ref)
-err = np.abs(tab - ref).max() / max(np.abs(ref).max(), 1e-30)
+err = np.abs(tab - ref).max() / max(np.abs(ref).max(), 1e-300)
 print("relative defect", err, "tolerance", %(tol)r)
 sys.exit(1 if err > %(tol)r else 0)
 '''
@@ -218,7 +218,7 @@ else:
     x = np.asarray(getattr(state(Ckm), "Compute_d2I%%ddC" %% k)(), dtype=float)
     tab, ref = np.broadcast_to(x, (1, 1, 6, 6))[0, 0], fd(dI, Ckm).T
 print("table:\n", tab); print("central difference w.r.t. the Kelvin-Mandel components of C:\n", ref)
-err = np.abs(tab - ref).max() / max(np.abs(ref).max(), 1e-30)
+err = np.abs(tab - ref).max() / max(np.abs(ref).max(), 1e-300)
 print("relative defect", err)
 sys.exit(1 if err > 1e-5 else 0)
 '''
@@ -342,6 +342,33 @@ def gen_params(rng, law):
 
 
 ELEMS = {2: ["TRI3", "QUAD4", "TRI6", "QUAD8"], 3: ["TETRA4", "HEXA8", "TETRA10", "PRISM6"]}
+
+
+MODULI = {"NeoHookean": ["K"], "MooneyRivlin": ["K", "K1", "K2"], "CiarletGeymonat": ["K", "K1", "K2"], "AutoDiff": ["K", "K1", "K2"],
+          "SaintVenantKirchhoff": ["lmbda", "mu", "K"], "HolzapfelOgden": ["C0", "C2", "C4", "C6", "K", "Mu1", "Mu2"]}
+# changes of units for the scaled twins: lengths, moduli, time (every checked quantity is homogeneous)
+UNITS = [{"sL": 1e-6, "sE": 2.0 ** 40, "sT": 2.0 ** -30}, {"sL": 1e3, "sE": 2.0 ** -40, "sT": 2.0 ** -30}]
+
+
+def twin(c, k, suffix):
+    t = json.loads(json.dumps(c))
+    t["id"] = c["id"] + suffix
+    t["twin_of"] = c["id"]
+    t["scale"] = dict(UNITS[k % len(UNITS)])
+    return t
+
+
+def add_state_twins(cases, every):
+    out = list(cases)
+    for i, c in enumerate(cases):
+        if i % every == 0:
+            t = twin(c, i // every, "u")
+            sE = t["scale"].pop("sE")
+            t["scale"].pop("sT")
+            t["sE"] = sE
+            t["params"] = {k: (v * sE if k in MODULI[c["law"]] else v) for k, v in c["params"].items()}
+            out.append(t)
+    return out
 
 
 def gen_state_cases(ctx, laws, n_per):
@@ -540,7 +567,9 @@ def gen_drift_cases(ctx):
             return ["solve", "save"] * m + [["set_iter", back]] + ["solve"] * 2 + ["save"] + ["solve"] * (n - m - 2)
         if kind == "dt-changed":
             m = n // 2
-            return ["solve"] * m + ["save", ["dt", round(rng.uniform(0.02, 0.08), 3)]] + ["solve", "solve", "save"] * ((n - m) // 2)
+            # a near-equal change of the step (1e-6 relative) must be honoured like a large one
+            k = max(1, (n - m) // 4)
+            return ["solve"] * m + ["save", ["dt", 0.05 * (1 + 1e-6)]] + ["solve", "solve", "save"] * k + [["dt", round(rng.uniform(0.02, 0.08), 3)]] + ["solve", "solve", "save"] * k
         raise KeyError(kind)
     nS = 12 if quick else 60
     kinds = ["save-every-k", "never-saved", "rewind", "dt-changed"]
@@ -613,6 +642,23 @@ def compare_states(ctx, M, model, cases, results):
                     mism.append((c["id"], c["law"], "%s at Gauss point %d (dim %d, %s, %s): relative defect %.3g" % (q, p, dim, c["elemType"], c["kind"], e), c, q))
             ctx.note_case("%s:%d:%s:%s" % (c["law"], dim, c["kind"], c["elemType"]))
         dist["%s/%dD/%s" % (c["law"], dim, c["kind"])] = dist.get("%s/%dD/%s" % (c["law"], dim, c["kind"]), 0) + 1
+    # scaled twins: moduli x sE (a power of two) and lengths x sL must give exactly sE times the base response
+    byid = {c["id"]: r for c, r in zip(cases, results)}
+    ntw = 0
+    for c, r in zip(cases, results):
+        if "twin_of" not in c or "error" in r or "error" in byid.get(c["twin_of"], {"error": 1}):
+            continue
+        b = byid[c["twin_of"]]
+        ntw += 1
+        for q in ("W", "dW", "d2W"):
+            a1 = [x for p_ in r[q] for x in (flat(p_) if q == "d2W" else (p_ if q == "dW" else [p_]))]
+            a0 = [x * c["sE"] for p_ in b[q] for x in (flat(p_) if q == "d2W" else (p_ if q == "dW" else [p_]))]
+            sc = max(max(abs(x) for x in a0), 1e-300)
+            e = max(abs(x - y) for x, y in zip(a1, a0)) / sc
+            if not e <= 1e-9:
+                mism.append((c["id"], c["law"], "change of units (lengths x %g, moduli x 2^%d): %s is not the predicted multiple of the base case, relative defect %.3g"
+                             % (c["scale"]["sL"], round(__import__("math").log2(c["sE"])), q, e), c, q))
+    ctx.cov["state_scaled_twins"] = ntw
     ctx.cov["state_case_distribution"] = dist
     ctx.cov["state_worst_relative_defect"] = worst
     return mism
@@ -888,6 +934,13 @@ def run(ctx):
     dcases = gen_drift_cases(ctx)
     tcases = gen_simfd_cases(ctx, laws, schemes)
     qcases = gen_quad_cases(ctx, laws)
+    # scaled twins (change of units): same scenario, lengths x {1e-6, 1e3}, moduli x 2^(+-40), time x 2^-30
+    scases = add_state_twins(scases, 5 if quick else 4)
+    fcases += [twin(c, i, "u") for i, c in enumerate(fcases[: (2 if quick else 6)])]
+    pick = [c for c in tcases if c["kind"] in ("gonzalez", "quadrature", "adaptive") and c["pattern"] in ("scheme-then-stress", "scheme-changed-after-stress")]
+    pick += [c for c in tcases if c["pattern"].startswith("scheme-sweep")][:2]
+    tcases += [twin(c, i, "u") for i, c in enumerate(pick[: (4 if quick else 10)])]
+    dcases += [twin(c, i, "u") for i, c in enumerate([c for c in dcases if c["id"] in ("h0", "d4", "h1", "h2")][: (2 if quick else 4)])]
     req = {"states": scases, "fd": fcases, "surface": pcases, "drift": dcases, "simfd": tcases, "quad": qcases}
     impl_pool = ThreadPoolExecutor(max_workers=1)
     impl_future = impl_pool.submit(ctx.impl_python, os.path.join(common.VERIF, "corr", "C18_impl.py"), (), 1500, json.dumps(req))
@@ -995,7 +1048,7 @@ def run(ctx):
     ctx.cov["operator_fd_comparisons"] = nfd
     ctx.cov["operator_fd_worst_defect"] = worst
     # assembled Newton matrix of the simulation after setter sequences (sampled)
-    nsim, worst_sim, rejected = 0, 0.0, {}
+    nsim, worst_sim, rejected, worst_asm = 0, 0.0, {}, {}
     for c, r in zip(tcases, impl["simfd"]):
         tag = "%s/%s" % (c["kind"], c["pattern"])
         if "error" in r:
@@ -1020,6 +1073,15 @@ def run(ctx):
                                   "after the history %s (setters %s) Construct_local_matrix_system returns a %s that differs from the one of a fresh simulation in the same state (u_n, v_n, a_n, u_{n+1}) by %.3g relative (%s, %s)"
                                   % (c["presteps"], c["ops"], "tangent" if key.startswith("sim:K") else "residual", r[key], c["elemType"], c["law"]),
                                   {"replay_py": REPLAY_CASE % dict(case=json.dumps(c), fn="run_simfd", key=key, tol=1e-9), "defect": r[key], "presteps": c["presteps"]}, True)
+        for key, tolk in (("sim:assembled K,C,M = scatter-add of element matrices", 1e-12), ("sim:assembled A.d=-dF/du_np1.d", FD_TOL)):
+            if key in r:
+                worst_asm[key] = max(worst_asm.get(key, 0.0), r[key])
+                if not r[key] <= tolk:
+                    ctx.obligation("simfd:%s:%s" % (c["id"], key), False, "defect %.3g" % r[key])
+                    ctx.violation("assembled-system:%s:%s" % ("scatter" if "scatter" in key else "tangent", c["kind"]),
+                                  "%s violated after the setter sequence %s (final scheme %s, stress %s, %s %s%s): relative defect %.3g (tolerance %.1g)"
+                                  % (key, c["ops"], r["algo"], r["stress"], c["elemType"], c["law"], ", units " + json.dumps(c["scale"]) if c.get("scale") else "", r[key], tolk),
+                                  {"replay_py": REPLAY_CASE % dict(case=json.dumps(c), fn="run_simfd", key=key, tol=tolk), "defect": r[key], "ops": c["ops"]}, True)
         val = r["sim:A=-dF/du_np1"]
         nsim += 1
         worst_sim = max(worst_sim, val)
@@ -1036,6 +1098,7 @@ def run(ctx):
     ctx.obligation("corr:assembled-newton-matrix-vs-central-differences(sampled)", True, "%d setter sequences" % nsim, n=1)
     ctx.cov["simfd_sequences"] = nsim
     ctx.cov["simfd_worst_defect"] = worst_sim
+    ctx.cov["assembled_system_worst_defect"] = worst_asm
     ctx.cov["simfd_rejected_sequences"] = rejected
     # strain-path quadrature: discrete-gradient identity per number of points (sampled)
     qworst = {}
@@ -1100,6 +1163,7 @@ def run(ctx):
                           % (d, len(E) - 1, c["stress"], c["law"], c["dt"], c.get("program_kind", "save-every-step"), tol),
                           {"replay_py": REPLAY_CASE % dict(case=json.dumps(c), fn="run_drift", key="drift", tol=tol), "energies": E[:10]}, True)
     ctx.cov["energy_drift_relative"] = drifts
+    ctx.cov["newton_iterations_recorded"] = {c["id"] + ":" + c["stress"]: r.get("newton_iters") for c, r in zip(dcases, impl["drift"]) if "error" not in r}
     # thorough: model-level derivative sweep as an independent cross-check of the Coq decision
     if ctx.tier == "thorough" and proof_ok:
         found = search_inv_defects(M) + search_law_defects(ctx, M, model)
